@@ -268,7 +268,7 @@ impl<T1, T2, T3>''')]),
                 cb(&predicate);
             }
             true''')]),
- ("c12_event_lookup_in_tag_table", ["C12", "C13"], [(INV, '''        let cache_names = self
+ ("c12_event_lookup_in_tag_table", ["C12"], [(INV, '''        let cache_names = self
             .event_to_caches
             .read()
             .get(event)
@@ -283,8 +283,22 @@ impl<T1, T2, T3>''')]),
             .unwrap_or_default();
 
         self.invalidate_caches(&cache_names)''')]),
- ("c12_sync_clear_callback_keeps_queue", ["C12", "C13", "C04"], [(MS, '''                            #cache_ident.write().clear();
+ ("c13_sync_clear_callback_keeps_queue", ["C13", "C04"], [(MS, '''                            #cache_ident.write().clear();
                             #order_ident.lock().clear();''', '''                            #cache_ident.write().clear();''')]),
+ ("c12_dependency_registered_as_tag", ["C12"], [(INV, '''            for dep in &metadata.dependencies {
+                dep_map''', '''            let mut tag_map2 = self.tag_to_caches.write();
+            for dep in &metadata.dependencies {
+                tag_map2.entry(dep.clone()).or_insert_with(HashSet::new).insert(cache_name.to_string());
+                dep_map''')]),
+ ("c12_async_clear_callback_clears_order_only", ["C12"], [(MA, '''                        #cache_ident.clear();
+                        #order_ident.lock().clear();''', '''                        #order_ident.lock().clear();''')]),
+ ("c12_invalidate_cache_requires_tag", ["C12"], [(MS, '''    let invalidation_registration = if !attrs.tags.is_empty()
+        || !attrs.events.is_empty()
+        || !attrs.dependencies.is_empty()
+    {
+        // ...existing code...''', '''    let invalidation_registration = if !attrs.tags.is_empty()
+    {
+        // ...existing code...''')]),
  ("c12_count_off_by_one", ["C12"], [(INV, '''            if let Some(callback) = callbacks.get(name) {
                 callback();
                 count += 1;
@@ -297,7 +311,7 @@ impl<T1, T2, T3>''')]),
             }
         }
 
-        count.saturating_sub(if count > 1 { 1 } else { 0 })''')]),
+        if count > 1 { count - 1 } else { count }''')]),
  ("c15_global_hit_on_expired_path", ["C15"], [(G, '''            remove_key_from_global_cache(&mut map_write, &mut o, key);
             #[cfg(feature = "stats")]
             self.stats.record_miss();''', '''            remove_key_from_global_cache(&mut map_write, &mut o, key);
